@@ -76,6 +76,17 @@ theorem roundtrip_iterated (s : Model V) (fr fr' : Fresh V) (gather : V → V) (
   rw [hcls] at h2
   exact h2.trans h1
 
+/-- **C11 (nothing learned is left behind)** Every attribute of the estimator that `fit` assigns and that the prediction code
+(`predict`, `predict_proba`, `get_grads` and everything they call on `self`) reads is assigned again by `load_state_dict` — over the
+regenerated inventories `Gen.State.learnedStateReadAtPrediction` / `attributesAssignedByLoad` (attribute reads and writes of the
+current source; a cache the prediction code builds for itself is not learned state).  A learned attribute that a load does not set
+would be read by the loaded model at the constructor's default. -/
+theorem learned_state_read_at_prediction_is_restored :
+    learnedStateReadAtPrediction.all (fun a => attributesAssignedByLoad.contains a) = true := by decide
+
+-- non-vacuity: the trees and the label converter are such attributes
+example : learnedStateReadAtPrediction.contains "trees" = true ∧ 2 ≤ learnedStateReadAtPrediction.length := by decide
+
 /-- **C11 (export is pure)** `get_state_dict()` leaves the source model as it was. -/
 theorem export_pure (scrub : V → V) (s : Model V) : sourceAfterExport scrub s = s := by
   simp [sourceAfterExport, exportLeavesSourceUntouched]
